@@ -12,6 +12,24 @@ fi
     for a in "$@"; do printf '%s\n' "$a"; done
 } > "$R/child.argv"
 echo "- G START pid=$$ name=$name" >> "$R/events.log"
+# git before 2.42 cannot read /dev/fd/N operands (process substitution): it compares the link
+# texts and reports a difference whatever the contents are.  Emulate that.
+if [ "$name" = git ]; then
+    ver=$(sed -n 's/^git version \([0-9]*\)\.\([0-9]*\).*/\1 \2/p' "$R/git_version" 2>/dev/null)
+    set -- $ver "$@"
+    maj=${1:-9}; min=${2:-99}; shift 2 2>/dev/null
+    if [ "$maj" -lt 2 ] || { [ "$maj" -eq 2 ] && [ "$min" -lt 42 ]; }; then
+        for a in "$@"; do
+            case "$a" in
+                /dev/fd/*|/proc/self/fd/*)
+                    printf 'diff --git a/%s b/other\nindex 1..2 120000\n--- a/%s\n+++ b/other\n@@ -1 +1 @@\n-pipe:[1]\n+bogus\n' "$a" "$a"
+                    echo "- G EXIT pid=$$ code=1 bogus=1" >> "$R/events.log"
+                    exit 1
+                    ;;
+            esac
+        done
+    fi
+fi
 order=$(cat "$R/child.order" 2>/dev/null)
 code=$(cat "$R/child.exit" 2>/dev/null)
 # A real git/rg that is still writing when its reader goes away dies of SIGPIPE: do the same.
